@@ -5,6 +5,7 @@ import (
 	"fmt"
 	"os"
 	"os/exec"
+	"os/signal"
 	"path/filepath"
 	"sort"
 	"strings"
@@ -63,16 +64,17 @@ type CmdSpec struct {
 	StdinData      []byte `json:"-"`
 	// StdinPipe (with StdinData and Stdin "@inherited"): fd 0 is a pipe that delivers StdinData
 	// and then end of file - standard input as `cat file | command` gives it (not seekable)
-	StdinPipe    bool              `json:"stdin_pipe"`
-	Knobs        map[string]int    `json:"knobs"`
-	PoolPolicy   int               `json:"pool_policy"`
-	YieldDensity int               `json:"yield_density"`
-	Policy       int               `json:"policy"`
-	MaxSteps     int               `json:"max_steps"`
-	TimeoutSec   int               `json:"timeout_sec"` // watchdog of the child (0: 60 s)
-	CrashAt      int               `json:"crash_at"`    // >0: the command is killed at that scheduling step (whatever it has on disk stays)
-	Sched        simrt.SubTape     `json:"sched"`
-	Env          map[string]string `json:"env"`
+	StdinPipe     bool              `json:"stdin_pipe"`
+	Knobs         map[string]int    `json:"knobs"`
+	PoolPolicy    int               `json:"pool_policy"`
+	YieldDensity  int               `json:"yield_density"`
+	Policy        int               `json:"policy"`
+	MaxSteps      int               `json:"max_steps"`
+	TimeoutSec    int               `json:"timeout_sec"`     // watchdog of the child (0: 60 s)
+	CrashAt       int               `json:"crash_at"`        // >0: the command is killed at that scheduling step (whatever it has on disk stays)
+	FileSizeLimit int               `json:"file_size_limit"` // >0: RLIMIT_FSIZE of the command: a write that would make any regular file larger fails (EFBIG), as on a full disk or over a quota
+	Sched         simrt.SubTape     `json:"sched"`
+	Env           map[string]string `json:"env"`
 }
 
 type CmdOutcome struct {
@@ -180,9 +182,23 @@ func SubCmdMain(t *testing.T) {
 	os.Stderr = ferr
 	os.Args = append([]string{spec.Name}, spec.Args...)
 
+	var oldLimit syscall.Rlimit
+	if spec.FileSizeLimit > 0 {
+		// SIGXFSZ ignored: the write returns EFBIG instead of killing the process
+		signal.Ignore(syscall.SIGXFSZ)
+		if err := syscall.Getrlimit(syscall.RLIMIT_FSIZE, &oldLimit); err != nil {
+			t.Fatal(err)
+		}
+		if err := syscall.Setrlimit(syscall.RLIMIT_FSIZE, &syscall.Rlimit{Cur: uint64(spec.FileSizeLimit), Max: oldLimit.Max}); err != nil {
+			t.Fatal(err)
+		}
+	}
 	out := &Outcome{Status: "ok"}
 	rc := &RunCtx{T: t, Out: out, Dir: spec.Dir, Sched: simrt.FromSubTape(spec.Sched)}
 	res := rc.Sim(SimOpts{Knobs: spec.Knobs, PoolPolicy: spec.PoolPolicy, YieldDensity: spec.YieldDensity, Policy: spec.Policy, MaxSteps: spec.MaxSteps, CrashAt: spec.CrashAt}, main)
+	if spec.FileSizeLimit > 0 {
+		syscall.Setrlimit(syscall.RLIMIT_FSIZE, &oldLimit)
+	}
 	fout.Sync()
 	co := CmdOutcome{Killed: res.Killed, Exited: res.Exited, ExitCode: res.ExitCode, Panic: res.Panic, Deadlock: res.Deadlock, StepCap: res.StepCap,
 		Steps: res.Steps, Contended: res.Contended, Tasks: res.Tasks, SimUS: res.SimTimeUS, Sig: res.Sig, Policy: res.Policy,
